@@ -1246,3 +1246,130 @@ Proof.
     specialize (IH s1 g1 A1 A2 A3 Hok'). destruct (grun s1 g1 ops) as [[s2 g2] l].
     eapply step_facts_trans; eassumption.
 Qed.
+
+(** ---- all groups of a stream: CREATE, DESTROY and updates of one group ---- *)
+Definition groups_ok (gs : list (bytes * group)) : Prop := forall gn g, alookup gn gs = Some g -> GInv g.
+Lemma groups_ok_nil : groups_ok [].
+Proof. intros gn g H; discriminate. Qed.
+Lemma groups_ok_create gs gn : groups_ok gs -> alookup gn gs = None -> groups_ok (gs ++ [(gn, new_group)]).
+Proof.
+  intros H Hn gn' g. rewrite (alookup_app_new gn gn' new_group gs Hn). destruct (beq gn' gn); [|apply H].
+  intros Heq; inversion Heq; subst. apply GInv_new.
+Qed.
+Lemma groups_ok_destroy gs gn : groups_ok gs -> groups_ok (aremove gn gs) /\ alookup gn (aremove gn gs) = None /\
+  forall gn', gn' <> gn -> alookup gn' (aremove gn gs) = alookup gn' gs.
+Proof.
+  intros H. split; [|split].
+  - intros gn' g. rewrite alookup_aremove. destruct (beq gn' gn); [discriminate|apply H].
+  - rewrite alookup_aremove, beq_refl. reflexivity.
+  - intros gn' Hne. rewrite alookup_aremove. apply beq_false_ne in Hne. rewrite Hne. reflexivity.
+Qed.
+Lemma groups_ok_update gs gn g' : groups_ok gs -> GInv g' -> groups_ok (aput gn g' gs) /\
+  forall gn', gn' <> gn -> alookup gn' (aput gn g' gs) = alookup gn' gs.
+Proof.
+  intros H Hg. split.
+  - intros gn' g. rewrite alookup_aput. destruct (beq gn' gn); [|apply H]. intros Heq; inversion Heq; subst. assumption.
+  - intros gn' Hne. rewrite alookup_aput. apply beq_false_ne in Hne. rewrite Hne. reflexivity.
+Qed.
+
+(** ---- the stream invariant at the level of the database and the commands ---- *)
+Definition DbInv (d : db) : Prop :=
+  forall k e s, get_entry d k = Some e -> e_val e = VStream s -> SInv s.
+
+Lemma get_put_entry d k e k' : get_entry (put_entry d k e) k' = if beq k' k then Some e else get_entry d k'.
+Proof.
+  unfold get_entry, put_entry, aset. cbn [d_data alookup]. destruct (beq k' k) eqn:E; [reflexivity|].
+  rewrite alookup_aremove, E. reflexivity.
+Qed.
+Lemma DbInv_empty : DbInv empty_db.
+Proof. intros k e s H; discriminate. Qed.
+Lemma DbInv_put d k e s : DbInv d -> SInv s -> DbInv (put_entry d k {| e_val := VStream s; e_exp := e |}).
+Proof.
+  intros Hd Hs k' e' s'. rewrite get_put_entry. destruct (beq k' k); [|apply Hd].
+  intros Heq; inversion Heq; subst. cbn. intros Hv; inversion Hv; subst. assumption.
+Qed.
+Lemma raw_stream_inv d k e s : DbInv d -> raw_stream d k = SStream e s -> SInv s.
+Proof.
+  intros Hd. unfold raw_stream. destruct (get_entry d k) as [e0|] eqn:E; [|discriminate].
+  destruct (e_val e0) eqn:Ev; try discriminate. intros Heq; inversion Heq; subst. eapply Hd; eassumption.
+Qed.
+
+Ltac db_inv_finish :=
+  try assumption;
+  match goal with
+  | |- DbInv (put_stream _ _ _ _) => unfold put_stream; apply DbInv_put; [assumption|]
+  | |- DbInv (put_entry _ _ (new_entry _)) => unfold new_entry; apply DbInv_put; [assumption|]
+  | _ => idtac
+  end.
+
+Theorem xadd_db_inv d parts oracle : DbInv d -> DbInv (snd (h_xadd d parts oracle)).
+Proof.
+  intros Hd. unfold h_xadd.
+  repeat (first [ progress cbn [fst snd] | break_match ]); db_inv_finish.
+  all: try match goal with
+       | H : raw_stream _ _ = SStream _ _ |- _ => pose proof (raw_stream_inv _ _ _ _ Hd H)
+       end.
+  all: try match goal with
+       | H : st_add_auto _ _ _ = Some _, Hs : SInv _ |- _ => apply (add_auto_inv _ _ _ _ _ Hs H)
+       | H : st_add_auto _ empty_stream _ = Some _ |- _ => apply (add_auto_inv _ _ _ _ _ SInv_empty H)
+       | H : st_add_with_id _ _ _ = Some _, Hs : SInv _ |- _ => apply (add_with_id_inv _ _ _ _ Hs H)
+       | H : st_add_with_id empty_stream _ _ = Some _ |- _ => apply (add_with_id_inv _ _ _ _ SInv_empty H)
+       end.
+Qed.
+
+Theorem xdel_db_inv d parts : DbInv d -> DbInv (snd (h_xdel d parts)).
+Proof.
+  intros Hd. unfold h_xdel.
+  repeat (first [ progress cbn [fst snd] | break_match ]); db_inv_finish.
+  all: try match goal with
+       | H : raw_stream _ _ = SStream _ _ |- _ => pose proof (raw_stream_inv _ _ _ _ Hd H)
+       end.
+  all: match goal with
+       | H : st_delete ?s ?ids = (_, ?s'), Hs : SInv ?s |- SInv ?s' =>
+           let K := fresh in pose proof (delete_inv s ids Hs) as K; rewrite H in K; apply K
+       end.
+Qed.
+
+Lemma parse_usize_nonneg b n : parse_usize b = Some n -> 0 <= n.
+Proof.
+  unfold parse_usize, parse_unsigned.
+  assert (Hd : forall l acc v, 0 <= acc -> digits_val l acc = Some v -> 0 <= v).
+  { induction l as [|c l IH]; cbn [digits_val]; intros acc v Ha H; [inversion H; subst; assumption|].
+    destruct (is_digit c) eqn:E; [|discriminate]. unfold is_digit in E. apply andb_prop in E as [E1 E2].
+    apply Z.leb_le in E1, E2. apply (IH (acc * 10 + (c - 48)) v); [lia|exact H]. }
+  assert (Hp : forall l v, parse_digits l = Some v -> 0 <= v).
+  { intros l v. unfold parse_digits. destruct l; [discriminate|]. apply Hd. lia. }
+  assert (Hex : exists l', (match b with 43 :: d => parse_digits d | _ => parse_digits b end) = parse_digits l').
+  { destruct b as [|c r]; [eexists; reflexivity|]. destruct c as [|p|p]; try (eexists; reflexivity).
+    do 6 (try (destruct p as [p|p|]; try (eexists; reflexivity))). }
+  destruct Hex as [l' Hl']. rewrite Hl'. destruct (parse_digits l') as [v|] eqn:E; [|discriminate].
+  destruct (v <=? u64_max); [|discriminate]. intros H; inversion H; subst. eapply Hp; eassumption.
+Qed.
+
+Lemma xtrim_maxlen_nonneg parts n : xtrim_maxlen parts = Some n -> 0 <= n.
+Proof.
+  unfold xtrim_maxlen. intros H.
+  repeat match type of H with
+         | context [match ?x with _ => _ end] => destruct x eqn:?
+         end; try discriminate; eapply parse_usize_nonneg; eassumption.
+Qed.
+
+Theorem xtrim_db_inv d parts : DbInv d -> DbInv (snd (h_xtrim d parts)).
+Proof.
+  intros Hd. unfold h_xtrim.
+  repeat (first [ progress cbn [fst snd] | break_match ]); db_inv_finish.
+  all: try match goal with
+       | H : raw_stream _ _ = SStream _ _ |- _ => pose proof (raw_stream_inv _ _ _ _ Hd H)
+       end.
+  all: match goal with
+       | H : st_trim ?s ?n = (_, ?s'), Hs : SInv ?s, Hm : xtrim_maxlen _ = Some ?n |- SInv ?s' =>
+           let K2 := fresh in
+           pose proof (trim_inv s n Hs (xtrim_maxlen_nonneg _ _ Hm)) as K2; rewrite H in K2; apply K2
+       end.
+Qed.
+
+(** every command that changes the entries of a stream keeps the stream invariant of
+    every stream in the database *)
+Theorem stream_writes_db_inv d parts oracle : DbInv d ->
+  DbInv (snd (h_xadd d parts oracle)) /\ DbInv (snd (h_xdel d parts)) /\ DbInv (snd (h_xtrim d parts)).
+Proof. intros Hd. split; [apply xadd_db_inv|split; [apply xdel_db_inv|apply xtrim_db_inv]]; assumption. Qed.
